@@ -259,6 +259,27 @@ def scramble_by_value(rep, prog, m, sc, rel):
     ob('R-TPL', 'scramble_pop_ids folding', 'fold', 'folded input: unfold, scramble, fold', 'folded spectra handled as fold(scramble(unfold))', sc.lineno)
 
 
+def check_scramble_range(rep, sc, rel):
+    """R-RANGE: the re-dealing weight C(t_1,d_1)...C(t_P,d_P)/C(T,d) is at most one, but its factors are not: a binomial coefficient of
+    the pooled sample size T held as a float overflows to inf once T exceeds 1029 chromosomes and the quotient becomes nan (the total
+    count is lost).  The weight is therefore formed in log space (_lncomb / gammaln, then one exp), as the projection weights are;
+    exact integer coefficients (comb(..., exact=True), math.comb) are also unbounded."""
+    bad = []
+    for c in own_nodes(sc):
+        if not isinstance(c, ast.Call):
+            continue
+        nm = dotted(c.func) or ''
+        last = nm.split('.')[-1]
+        if last in ('comb', 'binom', 'factorial') and not nm.startswith('math.'):
+            exact = any(k.arg == 'exact' and isinstance(k.value, ast.Constant) and k.value.value is True for k in c.keywords)
+            if not exact:
+                bad.append((c.lineno, ast.unparse(c)[:70]))
+    rep.ob('R-RANGE', 'scramble_pop_ids weight range', not bad,
+           'no floating-point binomial coefficient or factorial: the weight is formed in log space' if not bad else
+           '; '.join('line %d: `%s` is a floating-point binomial coefficient: it overflows to inf beyond 1029 pooled chromosomes and the quotient of coefficients becomes nan' % b for b in bad[:2]),
+           rel, sc.lineno, what='the re-dealing weight stays finite for every sample size (log-space or exact-integer coefficients)')
+
+
 def check_scramble(rep, sc, rel):
     """scramble_pop_ids: pool by allele total, re-deal with multivariate hypergeometric weights, fold(scramble(unfold)).
     Expressions are compared after resolving local names through their (single, or loop-local sequential) assignments and
@@ -731,6 +752,7 @@ def run(rep, prog, tier):
         rep.saw_function(rel + ':' + q)
         generic.rule_name(rep, prog, m, fn)
         generic.rule_def(rep, m, fn)
+        generic.rule_dtype(rep, m, fn, 'index totals and re-indexed counts are held in wide fixed types (no wrap-around for large samples, no truncation of non-integer counts)')
     # ---- marginalize ------------------------------------------------------------------------------------------------
     mg = prog.func(SM, 'Spectrum.marginalize')
     loops = [n for n in own_nodes(mg) if isinstance(n, ast.For)]
@@ -861,6 +883,7 @@ def run(rep, prog, tier):
     # ---- Misc.combine_pops -------------------------------------------------------------------------------------------------------
     if check_misc_combine(rep, prog):
         sc = prog.func(SM, 'Spectrum.scramble_pop_ids')
+        check_scramble_range(rep, sc, rel)
         scramble_by_value(rep, prog, m, sc, rel)
         rep.floor('R-IDX', 15)
         return
